@@ -34,26 +34,39 @@ RULE = (
     "point of the frequency lattice x x = hf/kT in {1e-6..100 by decades, "
     "600} (thorough: 32 per decade) with 2 <= T <= 1e4 K, as float, "
     "numpy.float64, scalar f x T array, f array x T array and f[:,None] x "
-    "T[None,:] broadcast; non-trivial = the case holds a point with x <= "
-    "1e-3 or x >= 100. optics: n1 {1,1.33,2.5} x n2 {3 real, 2 complex with "
-    "zero imaginary part, 2 complex} (thorough: 4 x 15) x theta {0,1e-6,10.."
-    "80,89.999,90} + Brewster angle (thorough: every 0.25 deg) as scalars, "
-    "theta array and n2 array (real / zero-imaginary / mixed); non-trivial "
-    "= complex-typed n2, total reflection, or theta in {0, Brewster, 90}. "
+    "T[None,:] broadcast; plus T in {2,10,77,300,1000,5800,1e4} K as Python "
+    "int with every scalar f for which x is in range, and as float and as "
+    "Python int with the whole frequency lattice as one descending array "
+    "(points with x out of range are not judged); non-trivial = the case "
+    "holds a point with x <= 1e-3 or x >= 100. optics: n1 {1,1.33,2.5} as "
+    "float and as complex-typed real x n2 {3 real, 2 complex with zero "
+    "imaginary part, 2 complex with Im > 0, their 2 conjugates} (thorough: "
+    "4 x 18) x theta {0,1e-6,10..80,89.999,90} + Brewster angles (thorough: "
+    "every 0.25 deg), called as scalars, theta array, n2 array (real / "
+    "zero-imaginary / zero and positive imaginary mixed / negative "
+    "imaginary), n2[:,None] x theta[None,:], n1 array, n1 and n2 arrays of "
+    "equal length (every rotation of n1), n1[:,None] x theta[None,:]; "
+    "non-trivial = an element with complex-typed n2, total reflection, or "
+    "theta in {0, Brewster, 90}. "
     "All cases of a run are distinct by construction (products of finite "
     "alphabets, no repetition).")
 ASSUMPTIONS = [
     "inputs are Python floats / complex, numpy.float64 and float64 / "
-    "complex128 arrays; integer arrays (f**3 overflows int64) are outside "
-    "the domain",
+    "complex128 arrays, temperatures also Python ints; integer arrays "
+    "(f**3 overflows int64) are outside the domain",
     "numpy.longdouble has a 64-bit mantissa (x86 extended precision); "
     "expm1, sin, arctan, sqrt of the platform libm in that precision are "
     "trusted",
     "physical constants are taken from typhon.constants; the speed of light "
     "is an exact integer in m/s",
-    "for an absorbing medium (Im n2 > 0) the statement's Snell invariant is "
+    "for a complex n2 (Im n2 != 0) the statement's Snell invariant is "
     "read as phase matching: the returned real angle is that of the planes "
-    "of constant phase",
+    "of constant phase; it is the same for n2 and its conjugate",
+    "fresnel may reject Im n2 < 0 with Exception / ValueError (typhon's sign "
+    "convention is Im n >= 0); if it returns, its values are judged",
+    "a complex-typed n1 with zero imaginary part is a real n1",
+    "spectral-density converters are read as functions of their arguments: "
+    "the arrays passed in must be unchanged after the call",
     "an element with zero imaginary part inside a complex n2 array that "
     "also holds absorbing media may return NaN or the grazing angle beyond "
     "the critical angle (statement silent)",
